@@ -10,6 +10,14 @@ DIRS = {1: (0, 1), 2: (1, 1), 4: (1, 0), 8: (1, -1), 16: (0, -1), 32: (-1, -1),
 SQRT2 = math.sqrt(2.0)
 
 
+def code_for_step(drow, dcol):
+    """the code of the direction (drow, dcol), components in {-1, 0, 1}; 0 for no move"""
+    for code, d in DIRS.items():
+        if d == (drow, dcol):
+            return code
+    return 0
+
+
 class FlowGraph:
     def __init__(self, codes):
         """codes: 2-D list / array of integer codes"""
